@@ -307,6 +307,23 @@ func (c *run) write(k int) error {
 		k -= n
 	}
 	c.srv.FlushWait()
+	// the flush period is a lower bound only: on a loaded machine the last records may become readable later. Wait until
+	// the newest event can be read back (a growth step must be complete before the worker's next query).
+	want := "m" + strconv.Itoa(c.total-1)
+	for t0 := time.Now(); time.Since(t0) < 3*time.Second; time.Sleep(5 * time.Millisecond) {
+		var qres api.QueryResult
+		qr := &api.QueryRequest{Query: "select from " + c.tags + " limit 1", Offset: c.total - 1, Limit: 1}
+		if err := c.cli.Query(context.Background(), qr, &qres); err == nil && qres.Err == nil && len(qres.Events) == 1 && qres.Events[0].Message == want {
+			return nil
+		}
+	}
+	var dbg api.QueryResult
+	derr := c.cli.Query(context.Background(), &api.QueryRequest{Query: "select from " + c.tags + " limit 1", Offset: c.total - 1, Limit: 1}, &dbg)
+	first := ""
+	if len(dbg.Events) > 0 {
+		first = dbg.Events[0].Message
+	}
+	c.note("write: the newest event %s was not readable 3 s after the write (probe: err=%v res.Err=%v events=%d first=%q)", want, derr, dbg.Err, len(dbg.Events), first)
 	return nil
 }
 
@@ -1136,6 +1153,10 @@ func replay(path string) {
 		srv.Stop()
 		os.RemoveAll(srv.Dir)
 		res.Done(sec)
+	case "leads":
+		if queueLead(rp.Input) {
+			sectionLeads()
+		}
 	default:
 		res.Note("replay: section %q has no single-input replay; re-run the check with the recorded seed", rp.Section)
 	}
@@ -1150,7 +1171,19 @@ func main() {
 		return
 	}
 	rng := vh.NewRng(args.Seed)
+	for _, f := range vh.CorpusFiles(args.Corpus) {
+		var rp struct {
+			Section string          `json:"section"`
+			Input   json.RawMessage `json:"input"`
+		}
+		if vh.ReadJSON(f, &rp) == nil && rp.Section == "leads" {
+			queueLead(rp.Input)
+		}
+	}
+	leadsDone := make(chan struct{})
+	go func() { defer close(leadsDone); sectionLeads() }() // its own server; waits of up to 12 s run next to "faults"
 	sectionFaults(rng.Fork("faults"))
+	<-leadsDone
 	sort.Strings(res.Notes)
 	res.Write(args.Out)
 }
